@@ -18,11 +18,11 @@ var files embed.FS
 
 // Leaf is one end-entity certificate with its private key.
 type Leaf struct {
-	Name  string
-	DER   []byte
-	Key   *ecdsa.PrivateKey
-	Hosts []string
-	PEM   []byte // certificate PEM
+	Name   string
+	DER    []byte
+	Key    *ecdsa.PrivateKey
+	Hosts  []string
+	PEM    []byte // certificate PEM
 	KeyPEM []byte
 }
 
